@@ -31,7 +31,15 @@ TraceEvent ==
   /\ ev' = [op |-> Trace[l].op, arg |-> Trace[l].arg, out |-> Trace[l].out]
   /\ l' = l + 1
 
-TraceNext == TraceReset \/ TraceEvent
+\* steps the doubles cannot log (an upload or a root-bundle write that --keep_going skips): taken
+\* silently, without consuming a trace line; each one shrinks the pending set, so they are bounded
+TraceSilent ==
+  /\ l <= Len(Trace) /\ Trace[l].op # "Reset"
+  /\ Next
+  /\ ev'.op \in {"SkipObj", "SkipPem"}
+  /\ UNCHANGED l
+
+TraceNext == TraceReset \/ TraceEvent \/ TraceSilent
 
 HighWater == TLCSet(1, IF TLCGet(1) > l THEN TLCGet(1) ELSE l)
 TraceAccepted ==
